@@ -39,6 +39,10 @@ func propInvalidator(c *Case) {
 	}
 
 	ncb := c.Int("callbacks", 0, 4)
+	if c.Weighted("many-callbacks", 9, 1) == 1 {
+		ncb = []int{33, 40, 100}[c.Pick("ncallbacks", 3)]
+		c.Class("many-callbacks")
+	}
 	emptyList := ncb == 0 && c.Bool("empty-non-nil")
 	ncallers := c.Int("callers", 1, 12)
 
@@ -87,7 +91,29 @@ func propInvalidator(c *Case) {
 		}
 	}
 
-	c.Tracef("SkipInterval=%v callbacks=%d (empty list=%v) caller offsets=%v ctx modes=%v", skip, ncb, emptyList, offsets, ctxMode)
+	// the exported field may be changed while the instance is in use (under its embedded mutex):
+	// the interval in effect at a call is the one that counts
+	changeAfter, skip2 := -1, skip
+
+	if eff <= time.Hour && ncallers >= 2 && c.Weighted("SkipInterval-changed-at-runtime", 4, 1) == 1 {
+		for j := 0; j+1 < ncallers; j++ {
+			if offsets[j+1] > offsets[j]+1 {
+				changeAfter = j // strictly between two call instants
+			}
+		}
+
+		if changeAfter >= 0 {
+			skip2 = []time.Duration{time.Second, time.Nanosecond, time.Hour, -1, 0, 3 * time.Second}[c.Pick("SkipInterval2", 6)]
+			c.Class("SkipInterval-changed-at-runtime")
+		}
+	}
+
+	eff2 := skip2
+	if eff2 == 0 {
+		eff2 = 15 * time.Second
+	}
+
+	c.Tracef("SkipInterval=%v callbacks=%d (empty list=%v) caller offsets=%v ctx modes=%v; SkipInterval becomes %v after caller %d", skip, ncb, emptyList, offsets, ctxMode, skip2, changeAfter)
 
 	c.Bubble(func() {
 		inv := &cache.Invalidator{SkipInterval: skip}
@@ -171,6 +197,19 @@ func propInvalidator(c *Case) {
 			}()
 		}
 
+		if changeAfter >= 0 {
+			wg.Add(1)
+
+			go func() {
+				defer wg.Done()
+
+				time.Sleep(offsets[changeAfter] + 1)
+				inv.Lock()
+				inv.SkipInterval = skip2
+				inv.Unlock()
+			}()
+		}
+
 		synctest.Wait()
 		time.Sleep(cur + time.Second)
 		wg.Wait()
@@ -250,6 +289,11 @@ func propInvalidator(c *Case) {
 			group := byInstant[at]
 			nacc := 0
 
+			eff := eff
+			if changeAfter >= 0 && time.Duration(at-t0.UnixNano()) > offsets[changeAfter] {
+				eff = eff2
+			}
+
 			for _, i := range group {
 				if accepted[i] {
 					nacc++
@@ -261,6 +305,7 @@ func propInvalidator(c *Case) {
 				// nothing has to be skipped; calls that arrive while another one is running may still be
 				// turned away (the statement only constrains what accepted and rejected calls do)
 				c.Assert(nacc >= 1, "acceptance", "negative SkipInterval: none of %d calls at +%v accepted", len(group), time.Duration(at-t0.UnixNano()))
+				haveLast, last = true, at
 			case haveLast && time.Duration(at-last) < eff:
 				c.Assert(nacc == 0, "accepted-too-early", "%d call(s) accepted at +%v, only %v after the previous accepted call (SkipInterval %v)", nacc, time.Duration(at-t0.UnixNano()), time.Duration(at-last), eff)
 			default:
